@@ -77,13 +77,11 @@ func vxValueK(name string) uint64 {
 }
 
 func VxC12StateMachineObligations() {
+	// two arbitrary inputs after ProcessStart in both tiers: a third input multiplies the path count by the size
+	// of the input alphabet (~60) and exceeds the path budget (200000) for every seed state - measured, not
+	// reported as covered; the one-step harnesses from arbitrary states (C12-H3/H5/H8) carry the depth instead
 	steps := 2
-	if vx.Thorough() {
-		steps = 3
-		vx.Bound("N=4 equal-power validators, height 1, rounds 0..2, values {1,2}; ProcessStart + <= 3 arbitrary inputs; one message per (sender, round, kind)")
-	} else {
-		vx.Bound("N=4 equal-power validators, height 1, rounds 0..2, values {1,2}; ProcessStart + <= 2 arbitrary inputs; one message per (sender, round, kind)")
-	}
+	vx.Bound("N=4 equal-power validators, height 1, rounds 0..2, values {1,2}; ProcessStart + <= 2 arbitrary inputs from 5 seed states; one message per (sender, round, kind)")
 	seed := vx.Choice("seed", 5)
 	node := uint64(1)
 	if seed == 0 {
